@@ -122,13 +122,16 @@ theorem vclass_rounded_sound (C : Option Ctx) (cls : VC) (v : FV) (hv : γ cls v
     | mpbfix c => exact vclass_round_sound _ v none exact r res h
     | exp c => exact vclass_round_sound _ v none exact r res h
 
-/-- **Counterexample (finding C13-F4).**  `sum(xs)` is abstracted by the default unary rule
-`_rounded(e, TOP)`, i.e. by `representable_classes(ctx)`; but `_eval_sum` returns the single element of
-a one-element list without rounding it.  Under `MPFixedContext(-3, RM.RTN)` (no NaN, no infinity:
-the representable classes are ZERO | FINITE) the sum of `[+inf]` is `+inf`, whose class is not reported.
-Python: `with fp.MPFixedContext(-3, fp.RM.RTN): s = sum(xs)` on `xs = [inf]` returns `+inf` while
-`ValueClassInfer.analyze(f.ast).by_expr[sum(xs)] == ZERO|FINITE`. -/
-theorem vclass_sum_counterexample (addC : FV → FV → Except Err FV) :
+/-- `sum(xs)`: the `Sum()` rule answers the top class, which is sound for whatever `_eval_sum` returns
+(any folding function `addC`, any list). -/
+theorem vclass_sum_sound (C : Option Ctx) (a : VC) (addC : FV → FV → Except Err FV) (xs : List FV) (r : FV)
+    (_h : evalSum addC xs = .ok r) : γ (sumRule C a) r := has_top _
+
+/-- … and nothing smaller derived from the context would be: `_eval_sum` returns the single element of a
+one-element list without rounding it, so under `MPFixedContext(-3, RM.RTN)` (no NaN, no infinity:
+`representable_classes` is ZERO | FINITE) the sum of `[+inf]` is `+inf`.  This is the witness of the
+repaired finding C13-F4, where `Sum` went through the default rule `_rounded(e, TOP)`. -/
+theorem vclass_sum_not_representable (addC : FV → FV → Except Err FV) :
     let C : Ctx := .mpfix (-3) .rtn none true { enableNan := false, enableInf := false }
     evalSum addC [.inf false] = .ok (.inf false) ∧
     rounded (some C) top = (ZERO ||| FINITE) ∧
